@@ -57,6 +57,26 @@ def strategy(tier: str):
     return _case()
 
 
+def enumerate_cases(tier: str, shard: int, nshards: int):
+    """Streams nested up to (and beyond) the nesting limit of each preset: the tree must be constructible for every
+    stream the parser returns."""
+    shapes = {
+        "quotes": lambda n: ">" * n + " a *b* [c](d)\n",
+        "lists": lambda n: "- " * n + "a `b`\n",
+        "ordered": lambda n: "1. " * n + "a\n",
+        "quote-list": lambda n: "> - " * n + "a *b*\n",
+        "quotes+emphasis": lambda n: ">" * n + " " + "*a " * 40 + "b" + " c*" * 40 + "\n",
+        "quotes+links": lambda n: ">" * n + " " + "[" * 30 + "a" + "](u)" * 30 + "\n",
+    }
+    idx = 0
+    for preset in ("js-default", "commonmark", "default"):
+        for name in sorted(shapes):
+            for n in (10, 19, 20, 21, 33, 48, 49, 50, 51, 70, 96, 97, 98, 99, 100, 101, 150):
+                idx += 1
+                if idx % nshards == shard:
+                    yield {"src": shapes[name](n), "cfg": C.simple(preset), "deep": name}
+
+
 def _flatten_open(tokens):
     for t in tokens:
         if t.nesting >= 0:
